@@ -452,12 +452,61 @@ theorem svHop_atomic (E : HEnv F D Mat Vec) (h : Heap F D Mat Vec) (s i : Nat) (
   apply key
   split <;> rfl
 
+/-! ### In-place writes to a state the caller keeps using
+
+A `Cov` never looks at the state object it was made for again: what it reads is its private copy.  So whatever the caller
+writes into that state in place (components, another form, another date) is invisible to every covariance, now and after
+any later sequence of frame changes. -/
+
+/-- no covariance observes an in-place write to a state -/
+theorem svSet_view (E : HEnv F D Mat Vec) (h : Heap F D Mat Vec) (s : Nat) (d : D) (x : Vec) (j : Nat) :
+    (h.svSet s d x).view E j = h.view E j := rfl
+
+theorem hop_eq_of_same (E : HEnv F D Mat Vec) (h : Heap F D Mat Vec) (i : Nat) (t : Tag F) (e : t = (h.view E i).tag) : h.hop E i t = h :=
+  if_pos e
+
+theorem hop_eq_of_refused (E : HEnv F D Mat Vec) (h : Heap F D Mat Vec) (i : Nat) (t : Tag F) (e : ¬ t = (h.view E i).tag)
+    (e2 : ¬ hopOk (h.view E i) t = true) : h.hop E i t = h :=
+  (if_neg e).trans (if_neg e2)
+
+theorem hop_eq_of_done (E : HEnv F D Mat Vec) (h : Heap F D Mat Vec) (i : Nat) (t : Tag F) (e : ¬ t = (h.view E i).tag)
+    (e2 : hopOk (h.view E i) t = true) :
+    h.hop E i t = { h with buf := upd h.buf (h.obj i).buf (if (h.obj i).tr then E.base.tr (setFrame (E.at (h.view E i).date) (h.view E i).st t).mat
+                                                             else (setFrame (E.at (h.view E i).date) (h.view E i).st t).mat),
+                           data := upd h.data (h.obj i).data { h.data (h.obj i).data with tag := t } } :=
+  (if_neg e).trans (if_pos e2)
+
+/-- a frame change of a covariance and an in-place write to a state commute -/
+theorem hop_svSet (E : HEnv F D Mat Vec) (h : Heap F D Mat Vec) (s i : Nat) (t : Tag F) (d : D) (x : Vec) :
+    (h.svSet s d x).hop E i t = (h.hop E i t).svSet s d x := by
+  by_cases h1 : t = (h.view E i).tag
+  · rw [hop_eq_of_same E (h.svSet s d x) i t h1, hop_eq_of_same E h i t h1]
+  · by_cases h2 : hopOk (h.view E i) t = true
+    · rw [hop_eq_of_done E (h.svSet s d x) i t h1 h2, hop_eq_of_done E h i t h1 h2]; rfl
+    · rw [hop_eq_of_refused E (h.svSet s d x) i t h1 h2, hop_eq_of_refused E h i t h1 h2]
+
+theorem hops_svSet (E : HEnv F D Mat Vec) (h : Heap F D Mat Vec) (s : Nat) (d : D) (x : Vec) (ops : List (Nat × Tag F)) :
+    (h.svSet s d x).hops E ops = (h.hops E ops).svSet s d x := by
+  induction ops generalizing h with
+  | nil => rfl
+  | cons op rest ih =>
+    show ((h.svSet s d x).hop E op.1 op.2).hops E rest = ((h.hop E op.1 op.2).hops E rest).svSet s d x
+    rw [hop_svSet, ih]
+
+/-- **A read after an in-place write to the state returns what it returns without the write**: after `sv[...] = …`,
+`sv.form = …`, `sv.date = …` on the state a covariance was made for (or on any other state), every covariance is
+observed, after every later sequence of frame changes of any covariances, exactly as if the write had not happened -/
+theorem svSet_invisible (E : HEnv F D Mat Vec) (h : Heap F D Mat Vec) (s : Nat) (d : D) (x : Vec) (ops : List (Nat × Tag F)) (j : Nat) :
+    ((h.svSet s d x).hops E ops).view E j = (h.hops E ops).view E j := by
+  rw [hops_svSet]; rfl
+
 /-! ### One statement for every operation -/
 
 /-- the operations of the heap model (what the correspondence drives the real classes through) -/
-inductive Op (F Mat : Type) where
+inductive Op (F D Mat Vec : Type) where
   | hop (i : Nat) (t : Tag F)
   | svHop (s : Nat) (g : F)
+  | svSet (s : Nat) (d : D) (x : Vec)
   | attach (s i : Nat)
   | write (i : Nat) (g : Mat → Mat)
   | newCov (s : Nat) (tag : Tag F) (c : Mat)
@@ -468,9 +517,10 @@ inductive Op (F Mat : Type) where
   | copyCov (i : Nat)
   | pickle (i : Nat)
 
-def Heap.step (E : HEnv F D Mat Vec) (h : Heap F D Mat Vec) : Op F Mat → Heap F D Mat Vec
+def Heap.step (E : HEnv F D Mat Vec) (h : Heap F D Mat Vec) : Op F D Mat Vec → Heap F D Mat Vec
   | .hop i t => h.hop E i t
   | .svHop s g => h.svHop E s g
+  | .svSet s d x => h.svSet s d x
   | .attach s i => h.attach s i
   | .write i g => h.write E i g
   | .newCov s tag c => h.newCov s tag c
@@ -482,9 +532,10 @@ def Heap.step (E : HEnv F D Mat Vec) (h : Heap F D Mat Vec) : Op F Mat → Heap 
   | .pickle i => h.pickle E i
 
 /-- the operation names existing objects only -/
-def Op.valid (h : Heap F D Mat Vec) : Op F Mat → Prop
+def Op.valid (h : Heap F D Mat Vec) : Op F D Mat Vec → Prop
   | .hop i _ => i < h.nobj
   | .svHop s _ => ∀ i, (h.sv s).cov = some i → i < h.nobj
+  | .svSet _ _ _ => True
   | .attach _ i => i < h.nobj
   | .write i _ => i < h.nobj
   | .newCov _ _ _ => True
@@ -496,7 +547,7 @@ def Op.valid (h : Heap F D Mat Vec) : Op F Mat → Prop
   | .pickle i => i < h.nobj
 
 /-- the existing object whose cells the operation may write (none for the operations that only make a new object) -/
-def Op.writes (h : Heap F D Mat Vec) : Op F Mat → Option Nat
+def Op.writes (h : Heap F D Mat Vec) : Op F D Mat Vec → Option Nat
   | .hop i _ => some i
   | .svHop s _ => (h.sv s).cov
   | .attach _ i => some i
@@ -504,7 +555,7 @@ def Op.writes (h : Heap F D Mat Vec) : Op F Mat → Option Nat
   | _ => none
 
 /-- the operation does not make a numpy view -/
-def Op.noView : Op F Mat → Prop
+def Op.noView : Op F D Mat Vec → Prop
   | .mkView _ _ => False
   | _ => True
 
@@ -571,10 +622,11 @@ theorem svHop_obj (E : HEnv F D Mat Vec) (h : Heap F D Mat Vec) (s : Nat) (g : F
       · exact ⟨rfl, rfl⟩
 
 /-- well-formedness is an invariant of every operation -/
-theorem step_wf (E : HEnv F D Mat Vec) (h : Heap F D Mat Vec) (hw : WF h) (op : Op F Mat) (hv : op.valid h) : WF (h.step E op) := by
+theorem step_wf (E : HEnv F D Mat Vec) (h : Heap F D Mat Vec) (hw : WF h) (op : Op F D Mat Vec) (hv : op.valid h) : WF (h.step E op) := by
   cases op with
   | hop i t => exact wf_hop E h i t hw
   | svHop s g => exact wf_svHop E h s g hw
+  | svSet s d x => exact ⟨hw.buf, hw.data, hw.orb⟩
   | attach s i => exact wf_attach h s i hw
   | write i g => exact wf_write E h i g hw
   | newCov s tag c => exact (newCov_spec E h hw s tag c).1
@@ -589,11 +641,12 @@ theorem step_wf (E : HEnv F D Mat Vec) (h : Heap F D Mat Vec) (hw : WF h) (op : 
 for EVERY operation of the model, every existing object `j` that shares neither memory nor dict
 with the object the operation writes (if it writes one at all) is observed exactly as before —
 tag, values, `_orb_frame`, private state copy. -/
-theorem step_other (E : HEnv F D Mat Vec) (h : Heap F D Mat Vec) (hw : WF h) (op : Op F Mat) (hv : op.valid h)
+theorem step_other (E : HEnv F D Mat Vec) (h : Heap F D Mat Vec) (hw : WF h) (op : Op F D Mat Vec) (hv : op.valid h)
     (j : Nat) (hj : j < h.nobj) (hs : ∀ i, op.writes h = some i → Sep h i j) : (h.step E op).view E j = h.view E j := by
   cases op with
   | hop i t => exact hop_other E h i j t (hs i rfl)
   | svHop s g => exact svHop_other E h s j g hs
+  | svSet s d x => rfl
   | attach s i => exact attach_other E h hw s i j hj (hs i rfl)
   | write i g => exact write_other E h i j g (hs i rfl)
   | newCov s tag c => exact (newCov_spec E h hw s tag c).2.2.1 j hj
@@ -608,7 +661,7 @@ theorem step_other (E : HEnv F D Mat Vec) (h : Heap F D Mat Vec) (hw : WF h) (op
 made by `Cov(...)`, `Cov.copy`, unpickling and by numpy with a fresh output buffer never share
 memory or dict with anything — so in a process that takes no views, `step_other` applies to every
 pair of covariances at every moment -/
-theorem step_allSep (E : HEnv F D Mat Vec) (h : Heap F D Mat Vec) (hw : WF h) (hall : AllSep h) (op : Op F Mat) (hv : op.valid h)
+theorem step_allSep (E : HEnv F D Mat Vec) (h : Heap F D Mat Vec) (hw : WF h) (hall : AllSep h) (op : Op F D Mat Vec) (hv : op.valid h)
     (hnv : op.noView) : AllSep (h.step E op) := by
   -- operations that keep the object table
   have keep : ∀ (h' : Heap F D Mat Vec), h'.obj = h.obj → h'.nobj = h.nobj → AllSep h' := by
@@ -633,6 +686,7 @@ theorem step_allSep (E : HEnv F D Mat Vec) (h : Heap F D Mat Vec) (hw : WF h) (h
   cases op with
   | hop i t => exact keep _ (hop_obj E h i t) (hop_counters E h i t).1
   | svHop s g => exact keep _ (svHop_obj E h s g).1 (svHop_obj E h s g).2
+  | svSet s d x => exact keep _ rfl rfl
   | attach s i =>
     intro a b ha hb hab
     unfold Sep
